@@ -111,6 +111,9 @@ func (sd *c09Side) run(c *harness.Ctx, ending *bool, dir int) {
 		}
 		n, err := sd.conn.Write(buf)
 		sd.under.OnWrite = nil
+		for i := range buf {
+			buf[i] = 0xEE
+		}
 		if *ending {
 			return
 		}
